@@ -24,6 +24,8 @@ func runStream(name string, args []string) {
 		streamHtl(o)
 	case "ql":
 		streamQl(o)
+	case "qc":
+		streamQc(o)
 	case "reg":
 		streamReg(o)
 	case "cb":
